@@ -1,5 +1,5 @@
 import RustCcModel.Proofs.CtlSimp
-import RustCcModel.Proofs.CountsReach
+import RustCcModel.Proofs.InvReach
 import RustCcModel.Proofs.Reach
 /-! # C04 — Rc equivalence: last-owner drop reclaims at once; `strong_count` is exact
 
@@ -77,23 +77,44 @@ captured by a registered action) of every allocated object. -/
 abbrev pointersTo (w : World) (x : Id) : Nat := refs w x
 
 /-- **`strong_count` is never too low**: in every reachable world — after any sequence of operations,
-callbacks, collections, injected panics and unwindings — the count of every box that has not been
-freed is at least the number of pointers to it. (A panic may leak: `≤`, not `=`.) -/
+callbacks, collections, injected panics and unwindings — the count of every identity is at least the number of
+pointers to it. (A panic may leak: `≤`, not `=`.) -/
 theorem count_never_too_low (c : Cfg) (nH nW nK : Nat) (w : World) (h : Reachable c nH nW nK w)
-    (x : Id) (hx : (w.heap x).boxLive = true) : pointersTo w x ≤ (w.heap x).rc :=
-  (reachable_counts c nH nW nK w h).le x hx
+    (x : Id) : pointersTo w x ≤ (w.heap x).rc :=
+  (reachable_counts c nH nW nK w h).le x
 
 /-- A freed or never-allocated identity past the allocation frontier has no pointer to it at all. -/
 theorem no_pointer_to_unallocated (c : Cfg) (nH nW nK : Nat) (w : World) (h : Reachable c nH nW nK w)
     (x : Id) (hx : w.next ≤ x) : pointersTo w x = 0 :=
   (reachable_counts c nH nW nK w h).fresh x hx
 
-/-- Hence a box whose count is 0 (the guard under which the machine frees) has no pointer to it:
+/-- Hence an identity whose count is 0 (the guard under which the machine frees) has no pointer to it:
 **a free never leaves a dangling `Cc` behind**. -/
 theorem zero_count_no_pointer (c : Cfg) (nH nW nK : Nat) (w : World) (h : Reachable c nH nW nK w)
-    (x : Id) (hx : (w.heap x).boxLive = true) (h0 : (w.heap x).rc = 0) : pointersTo w x = 0 := by
-  have := count_never_too_low c nH nW nK w h x hx
+    (x : Id) (h0 : (w.heap x).rc = 0) : pointersTo w x = 0 := by
+  have := count_never_too_low c nH nW nK w h x
   omega
+
+/-- **No dangling `Cc`**: in every reachable world, whatever a pointer that exists (in a table, in a stash, held by
+running code, in a field of any allocated object — traced or not, dead or alive) points to is a box that has not
+been freed. -/
+theorem pointer_target_not_freed (c : Cfg) (nH nW nK : Nat) (w : World) (h : Reachable c nH nW nK w)
+    (x : Id) (hp : 0 < pointersTo w x) : (w.heap x).boxLive = true := by
+  have hle := count_never_too_low c nH nW nK w h x
+  have hi := reachable_inv c nH nW nK w h
+  exact OI.boxLive_of_rc hi.oi (x := x) (by show (w.heap x).rc ≠ 0; omega)
+
+/-- The object a plain `Cc::drop` is destroying (its frame `afterDropValue` is on the stack) keeps count 0 until it
+is released: no user code run by its destructor — or by anything nested in it — can obtain a pointer to it. -/
+theorem destroyed_object_unreachable (c : Cfg) (nH nW nK : Nat) (w : World) (h : Reachable c nH nW nK w)
+    (x : Id) (d : Bool) (hf : Frame.afterDropValue x d ∈ w.stack) :
+    (w.heap x).boxLive = true ∧ (w.heap x).rc = 0 ∧ pointersTo w x = 0 := by
+  have hi := reachable_inv c nH nW nK w h
+  have hz : x ∈ zeroed w.stack := by
+    unfold zeroed
+    exact List.mem_flatMap.2 ⟨_, hf, by simp [Frame.zeroed]⟩
+  have := hi.oi.zero x hz
+  exact ⟨this.1, this.2.1, zero_count_no_pointer c nH nW nK w h x this.2.1⟩
 
 /-- Non-vacuity: after `new` into entry 0 and `clone` into entry 1 the world is reachable, object 0 is
 live, two pointers to it exist and its count is 2. -/
